@@ -2,6 +2,9 @@ package c12
 
 import (
 	"bytes"
+	"crypto/hmac"
+	"crypto/sha256"
+	"encoding/hex"
 	"encoding/json"
 	"fmt"
 	"net"
@@ -37,6 +40,7 @@ type Cross struct {
 	// read time-outs after the start, then all clients burst at once (a late wake-up only shortens the silence)
 	IdleMs     int
 	IdlePauses int
+	TsigProv   bool // TSIG rounds: keys are supplied through the TsigProvider field of Server and Conn instead of TsigSecret
 	Tsig       bool // server has a TSIG secret, every request and reply is signed; TsigStatus must be nil for every request
 	Salt       uint32
 }
@@ -51,6 +55,7 @@ func genCross(transports []string) func(t *rapid.T) Cross {
 			UDPSize:    rapid.SampledFrom([]int{0, 0, 512, 1232, 4096}).Draw(t, "udpSize"),
 			Pad:        rapid.SampledFrom([]int{0, 0, 50, 200, 300}).Draw(t, "pad"),
 			Tsig:       rapid.IntRange(0, 9).Draw(t, "tsig") < 4,
+			TsigProv:   rapid.Bool().Draw(t, "tsigProvider"),
 			Async:      rapid.IntRange(0, 9).Draw(t, "async") < 4,
 			IdlePauses: rapid.IntRange(2, 3).Draw(t, "idlePauses"),
 			AsyncK:     rapid.IntRange(0, 4).Draw(t, "asyncK"),
@@ -188,6 +193,25 @@ func (s *crossState) request(cl, q int) *dns.Msg {
 		m.SetTsig(tsigKeyName, dns.HmacSHA256, 300, time.Now().Unix())
 	}
 	return m
+}
+
+// hmacProvider is a dns.TsigProvider (HMAC-SHA256 over whatever the library hands it) for the rounds
+// that configure Server.TsigProvider / Conn.TsigProvider instead of the secret maps.
+type hmacProvider string
+
+func (p hmacProvider) Generate(msg []byte, t *dns.TSIG) ([]byte, error) {
+	h := hmac.New(sha256.New, []byte(p))
+	h.Write(msg)
+	return h.Sum(nil), nil
+}
+
+func (p hmacProvider) Verify(msg []byte, t *dns.TSIG) error {
+	mac, err := hex.DecodeString(t.MAC)
+	want, _ := p.Generate(msg, t)
+	if err != nil || !hmac.Equal(mac, want) {
+		return dns.ErrSig
+	}
+	return nil
 }
 
 const (
@@ -349,6 +373,9 @@ func checkCross(c Cross) error {
 	cl := []string{"transport=" + c.Transport, fmt.Sprintf("clients>=%d", bucket(c.Clients)), fmt.Sprintf("sameIDs=%v", c.SameIDs), fmt.Sprintf("tsig=%v", c.Tsig)}
 	if c.Tsig && s.tsigOK.Load() > 0 {
 		cl = append(cl, "tsig-verified-requests")
+		if c.TsigProv {
+			cl = append(cl, "tsig-through-TsigProvider")
+		}
 	}
 	if s.idle {
 		cl = append(cl, "idle-timeouts-then-burst")
@@ -400,7 +427,11 @@ func (s *crossState) run() (lost int, err error) {
 		s.idle = true
 	}
 	if c.Tsig {
-		srv.TsigSecret = map[string]string{tsigKeyName: tsigSecret}
+		if c.TsigProv {
+			srv.TsigProvider = hmacProvider("provider secret")
+		} else {
+			srv.TsigSecret = map[string]string{tsigKeyName: tsigSecret}
+		}
 		// TXT + OPT + TSIG are three additional records; the default policy refuses more than two
 		srv.MsgAcceptFunc = func(dns.Header) dns.MsgAcceptAction { return dns.MsgAccept }
 	}
@@ -500,7 +531,11 @@ func (s *crossState) run() (lost int, err error) {
 			s.mu.Unlock()
 			co := &dns.Conn{Conn: conn, UDPSize: 1232}
 			if c.Tsig {
-				co.TsigSecret = map[string]string{tsigKeyName: tsigSecret} // replies are verified by ReadMsg
+				if c.TsigProv {
+					co.TsigProvider = hmacProvider("provider secret")
+				} else {
+					co.TsigSecret = map[string]string{tsigKeyName: tsigSecret} // replies are verified by ReadMsg
+				}
 			}
 			<-gate
 			for q := 1; q <= c.Reqs; q++ {
